@@ -40,6 +40,9 @@ DONE = {
  "C17": ("property-based model testing: the drained candidate iterator (hook nn_sequence) against the model 'sort all images by distance' (proptest, sharded)",
          "Exploration: point sets of 1..2500 (quick) / 10^4 (thorough) generators (uniform, clustered, lattices with many equidistant candidates, boundary, ...), all dimensionalities and box shapes, periodic or not, 4-6 query generators per set incl. first/last/closest to the seam; completeness as exact multiset equality, order up to rounding of the heap keys, shift encoding bitwise.",
          "Trusted: the hook returns the very iterators ConvexCell::build consumes (thin wrapper, see verif_hooks.rs); order tolerance 8 u L on positions.", "5 C17"),
+ "C16": ("property-based testing: bound against the brute-force reference cell + history/metamorphic relation (append generators outside the safety ball in batches, rebuild, compare the cell) (proptest, sharded)",
+         "Exploration: thousands of generated inputs (n to 120 quick / 300 thorough, all dimensionalities, periodic or not, anisotropic boxes); per input the vertex bound for every cell, the brute-force bound for up to 4 cells, and one history of 1..20 additions in 1..3 batches placed by construction just outside (1.0..1.5 radii) or anywhere outside the safety ball.",
+         "Trusted: the harness' reference model (C01), the conditioning-derived tolerance for 'unchanged up to rounding'. Over-estimates of the radius are legal and never flagged.", "5 C16"),
 }
 NOT_YET = "check under construction (work in progress; see DESIGN.md section 5)"
 ALL = ["C%02d" % i for i in range(1, 21)]
